@@ -90,6 +90,20 @@ def atom(e, truth=True):
         truth = not truth
     if isinstance(e, ast.Compare) and len(e.ops) == 1:
         op = e.ops[0]
+        # len(x) == 0 / len(x) != 0 / len(x) > 0 / len(x) >= 1 / len(x) < 1 are statements about the truthiness of x
+        l0, r0 = e.left, e.comparators[0]
+
+        def _len_arg(x):
+            return x.args[0] if isinstance(x, ast.Call) and isinstance(x.func, ast.Name) and x.func.id == "len" and len(x.args) == 1 and not x.keywords else None
+
+        def _int(x):
+            return x.value if isinstance(x, ast.Constant) and isinstance(x.value, int) and not isinstance(x.value, bool) else None
+        for a_, b_, o_ in ((l0, r0, type(op)), (r0, l0, {ast.Lt: ast.Gt, ast.Gt: ast.Lt, ast.LtE: ast.GtE, ast.GtE: ast.LtE}.get(type(op), type(op)))):
+            la, cv = _len_arg(a_), _int(b_)
+            if la is not None and cv is not None:
+                empty = {(ast.Eq, 0): True, (ast.NotEq, 0): False, (ast.Gt, 0): False, (ast.GtE, 1): False, (ast.Lt, 1): True, (ast.LtE, 0): True}.get((o_, cv))
+                if empty is not None:
+                    return (Atom(("t", src(la))), (not truth) if empty else truth)
         if isinstance(op, (ast.Lt, ast.Gt, ast.LtE, ast.GtE, ast.Eq, ast.NotEq)):
             d = _difference(e.left, e.comparators[0])
             if d is not None:
@@ -877,6 +891,22 @@ class Summariser(object):
             else:
                 head_txt = "for %s in %s" % (src(self.sub(p, _load(st.target))), src(head))
             p.effects.append(("loop", head_txt, st))
+            if not is_while and not self.safe and isinstance(st.iter, ast.Call) and isinstance(st.iter.func, ast.Name) and not st.iter.keywords:
+                # positional loops: the element of enumerate(Y) / zip(X, Y) at position $i is Y[$i] (the zipped sequences are
+                # read as equally long), so `for i, y in enumerate(Y): ... X[i]` and `for x, y in zip(X, Y)` read the same
+                fn_ = st.iter.func.id
+                ix = ast.Name(id="$i%d" % k, ctx=ast.Load())
+                args_ = [subst(a_, dict((kk, vv) for kk, vv in p.env.items() if "@loop" not in src(vv))) for a_ in st.iter.args]
+                if fn_ == "enumerate" and len(args_) == 1 and isinstance(st.target, ast.Tuple) and len(st.target.elts) == 2:
+                    self.assign(p, st.target.elts[0], ix, st)
+                    self.assign(p, st.target.elts[1], ast.Subscript(value=args_[0], slice=ix, ctx=ast.Load()), st)
+                elif fn_ == "zip" and isinstance(st.target, ast.Tuple) and len(st.target.elts) == len(args_):
+                    for t_, a_ in zip(st.target.elts, args_):
+                        self.assign(p, t_, ast.Subscript(value=a_, slice=ix, ctx=ast.Load()), st)
+                elif fn_ == "range" and isinstance(st.target, ast.Name) and len(args_) == 1:
+                    self.assign(p, st.target, ix, st)
+                if fn_ in ("enumerate", "zip", "range"):
+                    p.conds.append(atom(ast.Compare(left=ix, ops=[ast.Lt()], comparators=[ast.Constant(value=0)]), False))
             if not is_while and isinstance(st.iter, ast.Call) and isinstance(st.iter.func, ast.Name) and st.iter.func.id == "enumerate" \
                     and len(st.iter.args) == 1 and not st.iter.keywords and isinstance(st.target, ast.Tuple) and isinstance(st.target.elts[0], ast.Name):
                 # the index of enumerate() is a non-negative int
@@ -899,8 +929,11 @@ class Summariser(object):
                 else:
                     self.done.append(q)
             if True:
+                from .nf import NF as _NF
                 for q in after + broke:
                     for nm in names:
+                        if not self.safe and not _NF._first_use_is_load(st, nm):
+                            continue        # redefined before it is read in the next iteration: not carried
                         if nm in q.frozen:
                             q.effects.append(("carry", nm, q.frozen.pop(nm)))
                             continue
